@@ -140,7 +140,7 @@ uint64_t mc_hash_str(const char *z)
 /* ---------- shared state ---------- */
 #define NSTAT 96
 #define NSIGS 96
-#define OUTBITS 18
+#define OUTBITS 21
 #define NSAMPLE 6
 #define SAMPLE_LEN 600
 struct shared
